@@ -1,7 +1,7 @@
 //! cow-sim worker: properties C08 and C07.
 use simcommon::harness::*;
 use simcommon::rng::{run_seed, LogHash};
-use simcommon::c08;
+use simcommon::{c07, c08};
 use std::collections::{BTreeMap, BTreeSet};
 
 fn main() {
@@ -9,6 +9,7 @@ fn main() {
     install_quiet_panic_hook();
     match args.prop.as_str() {
         "C08" => c08_main(&args),
+        "C07" => c07_main(&args),
         other => {
             eprintln!("cowsim: unknown property {}", other);
             std::process::exit(2);
@@ -119,4 +120,99 @@ fn write_hashes(args: &Args, hashes: &BTreeSet<u64>) {
         }
         std::fs::write(path, buf).expect("write hashes");
     }
+}
+
+#[derive(serde::Serialize, serde::Deserialize)]
+struct C07Replay {
+    property: String,
+    engine: String,
+    batch_seed: u64,
+    index: u64,
+    run_seed: u64,
+    class: String,
+    signature: String,
+    detail: String,
+    original_actions: usize,
+    script: c07::Script,
+}
+
+fn c07_main(args: &Args) {
+    if let Some(path) = &args.replay {
+        let text = std::fs::read_to_string(path).unwrap_or_else(|e| {
+            eprintln!("cannot read replay {}: {}", path, e);
+            std::process::exit(2)
+        });
+        let r: C07Replay = serde_json::from_str(&text).unwrap_or_else(|e| {
+            eprintln!("bad replay file {}: {}", path, e);
+            std::process::exit(2)
+        });
+        let out = c07::execute(&r.script);
+        match out.violation {
+            Some(v) if v.class == r.class => {
+                println!("REPRODUCED property=C07 class={} signature={} detail={}", v.class, v.signature, v.detail);
+                std::process::exit(1);
+            }
+            Some(v) => {
+                println!("DIFFERENT property=C07 expected-class={} got-class={} detail={}", r.class, v.class, v.detail);
+                std::process::exit(3);
+            }
+            None => {
+                println!("NOT-REPRODUCED property=C07 expected-class={}", r.class);
+                std::process::exit(3);
+            }
+        }
+    }
+    if let Some(i) = args.dump {
+        let s = c07::generate(run_seed(args.seed, "C07", i), i);
+        println!("{}", serde_json::to_string_pretty(&s).unwrap());
+        return;
+    }
+    let mut progress = Progress::open(&args.progress);
+    let mut sum = WorkerSummary { prop: "C07".into(), ..Default::default() };
+    let mut states: BTreeSet<String> = BTreeSet::new();
+    let mut minimised: BTreeMap<String, u32> = BTreeMap::new();
+    let mut log = LogHash::new();
+    let mut hashes: BTreeSet<u64> = BTreeSet::new();
+    for index in args.from..args.to {
+        progress.at(index);
+        let rs = run_seed(args.seed, "C07", index);
+        let script = c07::generate(rs, index);
+        let out = c07::execute(&script);
+        sum.runs += 1;
+        sum.ticks += out.ticks;
+        sum.counters.merge(&out.counters);
+        states.extend(out.states.iter().cloned());
+        log.u64(out.log.0);
+        if out.steps_compared >= 3 {
+            hashes.insert(out.log.0);
+        }
+        if sum.samples.len() < 1 && script.actions.len() <= 6 && script.config.funcs[0].blocks.len() <= 3 {
+            sum.samples.push(serde_json::json!({"index": index, "run_seed": rs, "log_hash": format!("{:016x}", out.log.0), "script": script}));
+        }
+        if let Some(v) = out.violation {
+            let key = format!("{} {}", v.class, v.signature);
+            let n = minimised.entry(key).or_insert(0);
+            *n += 1;
+            if *n > 3 {
+                sum.counters.inc(&format!("violation-not-minimised.{}", v.class));
+                sum.violations.push(ViolationRecord { index, run_seed: rs, class: v.class, signature: v.signature, detail: v.detail, replay: String::new() });
+                continue;
+            }
+            let small = c07::minimise(&script, &v.class);
+            let v2 = c07::execute(&small).violation.unwrap_or(v.clone());
+            let path = format!("{}/C07-{}-{}.json", args.replay_dir, args.seed, index);
+            let rep = C07Replay {
+                property: "C07".into(), engine: "cow-sim".into(), batch_seed: args.seed, index, run_seed: rs,
+                class: v2.class.clone(), signature: v2.signature.clone(), detail: v2.detail.clone(),
+                original_actions: script.actions.len(), script: small,
+            };
+            let _ = std::fs::create_dir_all(&args.replay_dir);
+            std::fs::write(&path, serde_json::to_string_pretty(&rep).unwrap()).expect("write replay");
+            sum.violations.push(ViolationRecord { index, run_seed: rs, class: v2.class, signature: v2.signature, detail: v2.detail, replay: path });
+        }
+    }
+    sum.states = states.into_iter().collect();
+    sum.log_hash = log.0;
+    write_hashes(args, &hashes);
+    println!("SUMMARY {}", serde_json::to_string(&sum).unwrap());
 }
